@@ -419,6 +419,8 @@ func (pauseHook) AfterProcessPipeline(ctx context.Context, cmds []goredis.Cmder)
 // ---------------------------------------------------------------------------------------------
 
 func runKvConcCase(ctx *Ctx, kind string, progs [][]*kvOp, forceRace bool) {
+	ctx.R.Enter() // (a free-running case takes well under a second; see kvVersionBurst)
+	defer ctx.R.Leave()
 	var st kvs.Storage
 	var cleanup func()
 	secBy := map[int64][]int64{} // goroutine id -> section stamps
@@ -636,6 +638,9 @@ func genKvProgs(ctx *Ctx, threads, perThread int, withMany bool) [][]*kvOp {
 // every successful write must get a version never handed out before — by this storage, to anybody.  (The
 // in-memory backend draws its versions under the store's mutex, the Redis backend in the callers' goroutines.)
 func kvVersionBurst(ctx *Ctx, kind string, g, rounds int) {
+	// (under the call watchdog: a storage whose mutex is never released would hold every writer, and this harness, for ever)
+	ctx.R.Enter()
+	defer ctx.R.Leave()
 	var st kvs.Storage
 	if kind == "redis" {
 		mr, err := miniredis.Run()
@@ -726,6 +731,9 @@ func kvVersionBurst(ctx *Ctx, kind string, g, rounds int) {
 // among the last 65536 — a repeat within one millisecond (a wrapped or zero increment of a hand-rolled monotonic
 // generator) is far too rare per pair of calls to show in a few thousand writes.
 func kvVersionStream(ctx *Ctx, n int) {
+	// (under the call watchdog: a storage whose mutex is never released would hold every writer, and this harness, for ever)
+	ctx.R.Enter()
+	defer ctx.R.Leave()
 	ctx.R.Case("inmem", "burst")
 	var mu sync.Mutex
 	const win = 1 << 16
